@@ -233,6 +233,16 @@ def gen_c07(rnd, n, thorough=False):
                     add('decheader_badoff', 'dec header %s' % hx(enc_header_py(m & 0xffffffff, xff, layout, offsets=[o & 0xffffffff for o in offs])))
                 if rnd.chance(0.3):
                     add('decheader_maxret', 'dec header %s' % hx(enc_header_py(m & 0xffffffff, xff, layout, maxret=rnd.pick([0, 1, 2 ** 32 - 1]))))
+                if rnd.chance(0.5):
+                    # the same Header variable used for a second decode after a first one that failed (a short
+                    # buffer, a rejected method / xFilesFactor / count): the second answer is that of its own bytes
+                    mm = rnd.pick([1, 2, 3, 4, 5, 6])
+                    good = enc_header_py(mm, rnd.pick(XFF_VALID), layout if layout else [(1, 2)])
+                    first = rnd.pick([good[:16], good[:rnd.randint(0, 15)], enc_header_py(rnd.pick([0, 7, 9, 2 ** 31]), 0x3f000000, layout or [(1, 2)]),
+                                      enc_header_py(mm, rnd.pick([0x7fc00000, 0xff800000, 0x3f800001, 0xbf800000]), layout or [(1, 2)]),
+                                      good[:12] + be32(0), good[:12] + be32(len(layout) + 1) + good[16:], hb[:16]])
+                    second = rnd.pick([good, good, hb, first, enc_header_py(rnd.pick([1, 2, 3, 4, 5, 6]), 0x3f000000, [(1, 2)])])
+                    add('decreuse', 'decreuse header %s %s' % (hx(first), hx(second)))
             # parse entry point: the list in retention syntax (exact seconds)
             if layout and all(s > 0 and nn > 0 and s * nn <= 2 ** 33 for s, nn in layout):
                 add('plist', 'plist %s' % S(','.join('%ds:%ds' % (s, s * nn) for s, nn in layout)))
